@@ -10,6 +10,7 @@ CONSTANTS
     JoinCollapse = FALSE
     NoLimitRaw = FALSE
     Faults = TRUE
+    PanicCommits = FALSE
     MaxTxOps = 1
     CheckImpl = TRUE
 INVARIANT ImplConsistent
